@@ -30,7 +30,7 @@ CLAIMS = {
         "text": "Alias clause decided exactly for all argument combinations: each io.py function declared an alias (via "
                 "format_alias_doc) has the target's signature and forwards every parameter under its own name in a single call "
                 "on every path. Restriction clause decided structurally: liveness and by-name use of columns/keys/dtypes/types in "
-                "all readers and order provenance at positional labelling sites. Not decided: cast-after-read == cast-while-read. Added later: membership filters on the restriction parameter keep the elements IN it; each (name, type) pair of a type map reaches a conversion; parsed Python lists are cast through the converting constructor; liveness counts only effective uses (a self-reassignment is not a use). Round 7: no argument of a foreign parsing call depends on the dtype map; field order inside rows is tracked through itemgetter(*indices). Round 8: `if columns:` tests the restriction argument as given. Round 9: language-trap lints (one-shot iterators consumed twice, closures over loop variables, mutable defaults, fromkeys with a mutable value, starred itemgetter results used as sequences) over the property's anchor files. Round 10: names.index(x) in a reader (first of a duplicated header name). Round 11: a raise that depends on the restriction parameter validates against the complete column set (RESTR-raise); the itemgetter lint as in C12.",
+                "all readers and order provenance at positional labelling sites. Not decided: cast-after-read == cast-while-read. Added later: membership filters on the restriction parameter keep the elements IN it; each (name, type) pair of a type map reaches a conversion; parsed Python lists are cast through the converting constructor; liveness counts only effective uses (a self-reassignment is not a use). Round 7: no argument of a foreign parsing call depends on the dtype map; field order inside rows is tracked through itemgetter(*indices). Round 8: `if columns:` tests the restriction argument as given. Round 9: language-trap lints (one-shot iterators consumed twice, closures over loop variables, mutable defaults, fromkeys with a mutable value, starred itemgetter results used as sequences) over the property's anchor files. Round 10: names.index(x) in a reader (first of a duplicated header name). Round 11: a raise that depends on the restriction parameter validates against the complete column set (RESTR-raise); the itemgetter lint as in C12. Round 12: where the parsed columns are renamed (header=False), the restriction is applied to the renamed table, not handed to the parser (RESTR-names, D37).",
         "note": TRUST,
         "technique": "signature comparison + keyword-forwarding analysis + order-provenance dataflow over reaching definitions",
     },
@@ -99,7 +99,7 @@ CLAIMS = {
                 "ordering primitive is the stable lexsort, index vectors are created on and applied to the frame they index with the "
                 "attach/sort ordering that makes split return original positions, group-aware protocol on the DataFrame side "
                 "(_group_ labels from the same indices, None -> default, helper columns removed), run scan of yield_groups, count on a "
-                "copy, order restoration in grouped modify, per-column NA masks as key components in unique. Not decided: summary values. Added later: every (name, function) pair stores a column on every path of aggregate's loop, unmarked functions are not group-aware, the per-group frames exist before an arbitrary function is applied. Round 9: language-trap lints (one-shot iterators consumed twice, closures over loop variables, mutable defaults, fromkeys with a mutable value, starred itemgetter results used as sequences) over the property's anchor files. Round 11: Vector.rank orders the values themselves, never their text; unique's keys are not bit patterns. Round 12: an explicit `by` of split survives every rebinding (ARG-asgiven).",
+                "copy, order restoration in grouped modify, per-column NA masks as key components in unique. Not decided: summary values. Added later: every (name, function) pair stores a column on every path of aggregate's loop, unmarked functions are not group-aware, the per-group frames exist before an arbitrary function is applied. Round 9: language-trap lints (one-shot iterators consumed twice, closures over loop variables, mutable defaults, fromkeys with a mutable value, starred itemgetter results used as sequences) over the property's anchor files. Round 11: Vector.rank orders the values themselves, never their text; unique's keys are not bit patterns. Round 12: an explicit `by` of split survives every rebinding (ARG-asgiven). The scanner rule reads the index loop only (another algorithm is an analysis error); np.split is reached only with a non-empty array where its pieces are groups (GRD-split).",
         "note": TRUST,
         "technique": "statement-order and def-use rules (index-space discipline), must-facts for the protocol, effect analysis for count, guard engine",
     },
@@ -121,7 +121,7 @@ CLAIMS = {
                 "returns a list mixing element values with None (list(Optional(T))), whose conversion depends on compile order with "
                 "the Numba installed here -- violated at four sites of the pinned tree, recorded as known finding D25 with the failing "
                 "histories. NOT decided: numerical equality of NumPy vs Numba re-implementations (e.g. the mode loops), rounding, the "
-                "on-disk cache. Round 7: no call or keyword dict sets overwrite_input (the Python statistic would reorder the shared column, the compiled twin copies). Round 8: dtype conversions applied on the compiled path only are value-preserving for every class that reaches them. Round 9: language-trap lints (one-shot iterators consumed twice, closures over loop variables, mutable defaults, fromkeys with a mutable value, starred itemgetter results used as sequences) over the property's anchor files. Positional kernels without try/except are decided exactly (position selection, sa/intpred.py). Round 10: the compiled mode kernel counts an element for itself (NaN / NaT are not equal to themselves) -- D29, repaired. Round 11: UNIFY -- for every element kind use_numba() admits, the result of a generic_numba statistic unifies with the kernel default (timedelta did not: D35). Round 12: NA-prop -- a statistic that is NaN-blind under Numba (np.median) leaves the compiled path when missing values are kept (D36).",
+                "on-disk cache. Round 7: no call or keyword dict sets overwrite_input (the Python statistic would reorder the shared column, the compiled twin copies). Round 8: dtype conversions applied on the compiled path only are value-preserving for every class that reaches them. Round 9: language-trap lints (one-shot iterators consumed twice, closures over loop variables, mutable defaults, fromkeys with a mutable value, starred itemgetter results used as sequences) over the property's anchor files. Positional kernels without try/except are decided exactly (position selection, sa/intpred.py). Round 10: the compiled mode kernel counts an element for itself (NaN / NaT are not equal to themselves) -- D29, repaired. Round 11: UNIFY -- for every element kind use_numba() admits, the result of a generic_numba statistic unifies with the kernel default (timedelta did not: D35). Round 12: NA-prop -- a statistic that is NaN-blind under Numba (np.median) leaves the compiled path when missing values are kept (D36). The scanner twin rule compares the two index loops only; GRD-split as in C04.",
         "note": TRUST + " The history clause is decided only through the Optional-list condition, which was established by a probe "
                 "(notes/numba_optional_lists.md); other compile-order effects, if any, are outside this technique.",
         "technique": "twin feature-record comparison over the ast, decorator/registry rules, dtype-kind evaluation of use_numba against "
